@@ -70,7 +70,6 @@ def parseSite (t : String) : Option Site :=
   match t.toList with
   | ['e'] => some .endpoint
   | 'b' :: r => (String.ofList r).toNat?.map .before
-  | 'a' :: r => (String.ofList r).toNat?.map .after
   | 's' :: r => (String.ofList r).toNat?.map .status
   | 'x' :: r => (String.ofList r).toNat?.map .exch
   | _ => none
@@ -84,8 +83,17 @@ def parseNats (t : String) : Option (List Nat) :=
   if t = "none" then some [] else (t.splitOn ",").mapM String.toNat?
 
 def defaultBeh : Site → Beh
-  | .after _ => .same
   | _ => .ret .none
+
+def parseAfterIdx (t : String) : Option Nat :=
+  match t.toList with
+  | 'a' :: r => (String.ofList r).toNat?
+  | _ => none
+
+def mkPost (entries : List (Nat × Beh)) : AfterProg := fun j =>
+  match entries.find? (fun e => e.1 = j) with
+  | some e => e.2
+  | none => .same
 
 def mkProg (entries : List (Site × Beh)) : Prog := fun s =>
   match entries.find? (fun e => e.1 = s) with
@@ -125,15 +133,17 @@ def handle (toks : List String) : String :=
     let eh ← parseNats (← kv toks "eh")
     let digest := (kv toks "digest") = some "1"
     let progS ← kv toks "prog"
-    let entries ← (if progS = "none" then some [] else
+    let raw : List (String × Beh) ← (if progS = "none" then some [] else
       (progS.splitOn ";").mapM fun (e : String) =>
         match e.splitOn ":" with
-        | [s, b] => do pure ((← parseSite s), (← parseBeh b))
+        | [s, b] => do pure (s, (← parseBeh b))
         | _ => none)
+    let entries ← (raw.filter fun (e : String × Beh) => (parseAfterIdx e.1).isNone).mapM fun (e : String × Beh) => do pure ((← parseSite e.1), e.2)
+    let posts := raw.filterMap fun (e : String × Beh) => (parseAfterIdx e.1).map fun j => (j, e.2)
     let app : App := { nBefore := nb, nAfter := na, userStatus := us, excHandlers := eh,
                        builtinPages := Gen.Reasons.builtinPages, digestAuth := digest,
                        reasons := Gen.Reasons.table }
-    let (t, out) := run app (mkProg entries) ctor route
+    let (t, out) := run app (mkProg entries) (mkPost posts) ctor route
     let tr := String.intercalate "," ((t.filter fun (e : Ev) => !(e matches Ev.page _) && !(e matches Ev.builtinDispatch _)).map showEv)
     pure ((if tr.isEmpty then "-" else tr) ++ " " ++ showOutcome out)
   r.getD "bad-op"
